@@ -895,6 +895,43 @@ def check_detection(ctx, db):
     ctx.check(ok, 'R-DEP', 'Polygon::to_oas/detection-options', p.loc(), 'rectangle, trapezoid and circle detection run only under DETECT_RECTANGLES (0x10), DETECT_TRAPEZOIDS (0x20) and circle_tolerance > 0, and the circle test uses that tolerance', 'detector guards: %s' % cond)
 
 
+def check_validator(ctx, db):
+    """writer signature <-> oas_validate: same coverage (all bytes up to and including the validation-scheme byte),
+    same initial values, same byte order, same scheme codes"""
+    v = db.fn('gdstk::oas_validate')
+    w = db.fn(WRITER_ROOT)
+    ctx.touch(v)
+    seek = next((c for c in v.walk() if c.k == 'CallExpr' and (c.callee or '') in ('fseeko', 'fseek', 'fseeko64', '_fseeki64') and c.args[2].cv == 2), None)
+    size = next((x for x in v.walk() if x.k == 'VarDecl' and x.n == 'size' and x.child('init') is not None), None)
+    fs = next((x for x in v.walk() if x.k == 'VarDecl' and x.n == 'file_sum'), None)
+    ok = seek is not None and seek.args[1].cv == -5 and size is not None and re.fullmatch(r'\(?(\(uint64_t\))?\(?ftell\(in\) \+ 1\)?\)?', norm(size.child('init').text())) is not None and fs is not None and '[5]' in (fs.t or '')
+    ctx.check(ok, 'R-CONST', 'oas_validate/coverage', v.loc(), 'the validator signs file length - 4 bytes: everything up to and including the validation-scheme byte, which is what passes through the writer\'s accumulator', 'seek %s, size %s' % (seek and seek.args[1].cv, size and norm(size.child('init').text())))
+    arms = {}
+    for i in v.walk():
+        if i.k == 'IfStmt':
+            m = re.fullmatch(r'\(file_sum\[0\] == (\d+)\)', norm(i.child('cond').text()))
+            if m:
+                sig = next((x for x in i.child('then').walk() if x.k == 'VarDecl' and x.n == 'sig'), None)
+                upd = sorted({norm(c.callee or '') for c in i.child('then').walk() if c.k == 'CallExpr' and (c.callee or '').split('::')[-1] in ('crc32', 'checksum32') and len(c.args) == 3 and norm(c.args[0].text()) == 'sig'})
+                swp = any(c.k == 'CallExpr' and c.callee == 'gdstk::little_endian_swap32' for c in i.child('then').walk())
+                cmpv = any(x.k == 'BinaryOperator' and x.op == '!=' and 'file_sum + 1' in norm(x.text()) for x in i.child('then').walk())
+                arms[int(m.group(1))] = (norm(sig.child('init').text()) if sig is not None else None, upd, swp, cmpv)
+    want = {1: ('crc32(0, NULL, 0)', ['crc32'], True, True), 2: ('0', ['checksum32'], True, True)}
+    ctx.check(arms == want, 'R-TABLE', 'oas_validate/schemes', v.loc(), 'scheme 1 = CRC32 seeded with crc32(0, NULL, 0), scheme 2 = CHECKSUM32 seeded with 0; the result is converted to little-endian and compared with the stored word', 'validator arms: %s' % arms)
+    inits = {}
+    for x in w.walk():
+        if is_assign(x) and norm(x.child('lhs').text()) == 'out.signature':
+            g = next((a for a in x.ancestors() if a.k == 'IfStmt'), None)
+            inits[norm(g.child('cond').text()) if g is not None else ''] = norm(x.child('rhs').text())
+    ctx.check(inits == {'out.crc32': 'crc32(0, NULL, 0)', 'out.checksum32': '0'}, 'R-TABLE', 'write_oas/signature-seeds', w.loc(), 'the writer seeds the accumulator exactly like the validator', 'writer seeds: %s' % inits)
+    flags = {norm(x.child('lhs').text()): norm(x.child('rhs').text()) for x in w.walk() if is_assign(x) and norm(x.child('lhs').text()) in ('out.crc32', 'out.checksum32')}
+    ctx.check(flags == {'out.crc32': '(state.config_flags & 64)', 'out.checksum32': '(state.config_flags & 128)'}, 'R-TABLE', 'write_oas/signature-flags', w.loc(), 'INCLUDE_CRC32 (0x40) and INCLUDE_CHECKSUM32 (0x80) select the scheme', 'flags: %s' % flags)
+    cs = db.fn('gdstk::checksum32')
+    t = re.sub(r'\s+', ' ', norm(clone.canon(cs.body, cs)))
+    ok = re.search(r'uint64_t v0 = p0 while \(\(\(p2--\) > 0\)\) \(v0 = \(\(v0 \+ \(\*\(p1\+\+\)\)\) & 4294967295\)\) return \(uint32_t\)v0', t) is not None
+    ctx.check(ok, 'R-SHAPE', 'checksum32/sum-of-bytes', cs.loc(), 'CHECKSUM32 is the running sum of all `count` bytes modulo 2^32, continued from the previous value', 'checksum32 body: %s' % t[:200])
+
+
 def check_tagunion(ctx, db):
     n = 0
     w = db.fn(WRITER_ROOT)
@@ -935,12 +972,13 @@ def run(ctx):
     check_units(ctx, db)
     check_signature(ctx, db)
     check_cblock(ctx, db)
+    check_validator(ctx, db)
     check_detection(ctx, db)
     check_tagunion(ctx, db)
 
 
 MANIFEST = dict(
-    text='Decides the structural necessary conditions of the OASIS save/load round trip for every writer option: each record instance any writer block can emit (all valuations of the option/detection branches) is consumed field by field by the reader arm of the same record and info byte; PROPERTY count nibble/explicit count pairing for counts 0..40 and the value type table PropertyType<->OasisDataType; repetition type codes with paired count biases and scaling, and unsigned sinks proven non-negative; PATH extension-scheme nibbles vs the extensions written and the end type, half-width sink; PLACEMENT angle code inverse for m=-9..9; integer sinks fed only by llround(v*scaling); all file bytes go through the signature accumulator except the signature itself (call graph from write_oas); CBLOCK cursor armed/cleared in pairs with the header written unbuffered, raw deflate on both sides; Reference union members accessed under their tag. Equality of re-loaded coordinates, circle tolerance, deflate round trip, the signature value and idempotence over cycles are not decided.',
+    text='Decides the structural necessary conditions of the OASIS save/load round trip for every writer option: each record instance any writer block can emit (all valuations of the option/detection branches) is consumed field by field by the reader arm of the same record and info byte; PROPERTY count nibble/explicit count pairing for counts 0..40 and the value type table PropertyType<->OasisDataType; repetition type codes with paired count biases and scaling, and unsigned sinks proven non-negative; PATH extension-scheme nibbles vs the extensions written and the end type, half-width sink; PLACEMENT angle code inverse for m=-9..9; integer sinks fed only by llround(v*scaling); all file bytes go through the signature accumulator except the signature itself (call graph from write_oas); CBLOCK cursor armed/cleared in pairs with the header written unbuffered, raw deflate on both sides; oas_validate signs exactly the bytes that pass through the writer\'s accumulator (file length - 4) with the same seeds, scheme codes and byte order; Reference union members accessed under their tag. Equality of re-loaded coordinates, circle tolerance, deflate round trip, the signature value and idempotence over cycles are not decided.',
     note='Trusted: clang front end, gx, sa/oasfields.py abstract writer interpretation (unclassifiable conditions raise analysis-broken). Primitive codecs are C19\'s obligations, conformance of the reader arms to SEMI P39 is C04\'s.',
     technique='abstract interpretation of writer blocks under predicate atoms replayed against reader decision trees; exhaustive evaluation of pure integer code over small domains; code-table pairing with linear bias comparison; call-graph effect analysis (who may write the file); typestate on the CBLOCK cursor; tagged-union discipline',
     design='§4 C02')
